@@ -38,6 +38,7 @@ MIN_REACH = {
     "resows_of_farmer_crops": {"quick": 8, "thorough": 25},
     "farmers_holding_a_name_as_constant_and_resource": {"quick": 12, "thorough": 150},
     "positional_cases_named_by_the_farmers_fn_args": {"quick": 8, "thorough": 40},
+    "sows_after_a_refused_attempt": {"quick": 30, "thorough": 300},
     "resows_after_the_farmer_changed_what_it_provides": {"quick": 5, "thorough": 20},
 }
 TIME_BUDGET = {"quick": 300, "thorough": 3000}
@@ -67,7 +68,7 @@ def cases(ctx):
         for nb in range(1, n + 3):
             yield {"w": {"mode": "grid", "combos": _factor_grid(n, nb + 1), "names": None, "cases": None,
                          "constants": {}, "kind": "int"}, "batchsize": None, "num_batches": nb, "shuffle": False,
-                   "where": "ctor"}
+                   "where": "ctor", "refused_first": [None, None, "same_object", "new_object"][(n + nb) % 4]}
     cmax = ctx.pick(12, 24)
     for n in range(1, cmax + 1):
         cs = [{"p": i, "q": "s%d" % (i % 3)} for i in range(n)]
@@ -340,6 +341,20 @@ def run_case(ctx, case):
                 crop = xyzpy.Crop(farmer=farmer, name="c7", parent_dir=tmp, **ctor)
             else:
                 crop = xyzpy.Crop(fn=fn, name="c7", parent_dir=tmp, **ctor)
+            if case.get("refused_first") and w["mode"] == "grid":
+                # a first attempt is REFUSED (a value given twice on one axis - one setting too many); the corrected sow
+                # that follows, by this object or by a new one on the same name, is an ordinary first sow
+                dup = [(a, list(v) + ([v[0]] if k_ == 0 else [])) for k_, (a, v) in enumerate(w["combos"])]
+                try:
+                    crop.sow_combos(dict(dup), verbosity=0, **sowkw)
+                    raise AssertionError("a grid naming a value twice was not refused")
+                except AssertionError:
+                    raise
+                except Exception:
+                    ctx.count("sows_after_a_refused_attempt")
+                if case["refused_first"] == "new_object":
+                    crop = xyzpy.Crop(farmer=farmer, name="c7", parent_dir=tmp, **ctor) if farmer is not None else \
+                        xyzpy.Crop(fn=fn, name="c7", parent_dir=tmp, **ctor)
             if w["mode"] == "grid" or w.get("via") == "sow_combos":
                 cropkit.sow(crop, w, shuffle_at_sow=shuffle_at_sow, **sowkw)
             else:
